@@ -40,9 +40,17 @@ CHILD = {
     'after2': [['D', 1]],
     'at2': [['D', 1], ['PROBE', 'now']],
     'after1': [['D', 2]],
+    # a volatile helper that spawns one more regular child into the scope in the time step in which the last regular child
+    # finishes (queued behind it, ahead of the owner's wake-up)
+    'vspawn1': [['D', 1], ['TRY', [['DO', 'late', [['D', 1], ['PROBE', 'now']], {'scope': 's0'}]]], ['ETERNITY']],
+    'vspawn2': [['D', 2], ['TRY', [['DO', 'late', [['D', 1], ['PROBE', 'now']], {'scope': 's0'}]]], ['ETERNITY']],
+    # children whose payload is a bare awaitable instead of a coroutine
+    'bare2': [], 'bareev': [], 'bareflag': [], 'bareinst': [],
 }
-CHILD_OPTS = {'after2': {'after': 2}, 'at2': {'at': 2}, 'after1': {'after': 1}}
-VOLATILE = ('tick', 'forever', 'finspawn', 'd1', 'after2', 'finraise')
+CHILD_OPTS = {'after2': {'after': 2}, 'at2': {'at': 2}, 'after1': {'after': 1},
+              'bare2': {'bare': ['DELAY', 2]}, 'bareev': {'bare': ['ETERNITY']}, 'bareflag': {'bare': ['F', 'stop']},
+              'bareinst': {'bare': ['INSTANT']}}
+VOLATILE = ('tick', 'forever', 'finspawn', 'd1', 'after2', 'finraise', 'vspawn1', 'vspawn2', 'bareev', 'bare2')
 BODIES = {
     'none': [],
     'd1': [['D', 1]],
@@ -51,6 +59,11 @@ BODIES = {
     'raise1': [['D', 1], ['RAISE', 'IndexError', 'body']],
     'priv1': [['D', 1], ['RAISE', 'KeyboardInterrupt', 'body']],
     'awaitf1': [['D', 1], ['INSTANT'], ['AWAIT', 'c1_victf'], ['D', 1]],
+    # the owner subscribes a second time to the notification object of its own until block (kind untilf) and leaves that
+    # inner block again; the outer block then ends for another reason
+    'inuntil': [['UNTIL', 'in0', ['F', 'stop'], [['INSTANT']]]],
+    'inuntil_d2': [['UNTIL', 'in0', ['F', 'stop'], [['INSTANT']]], ['D', 2]],
+    'inuntil_raise0': [['UNTIL', 'in0', ['F', 'stop'], [['INSTANT']]], ['INSTANT'], ['RAISE', 'IndexError', 'body']],
 }
 KINDS = {'scope': None, 'until1': ['DELAY', 1], 'until2': ['DELAY', 2], 'untilf': ['F', 'stop'],
          'untilpast': ['EQ', -1], 'untilnow': ['GE', 0]}
@@ -90,11 +103,12 @@ def rename(script, i):
 def cases(tier):
     thorough = tier == 'thorough'
     out = []
-    singles = [k for k in CHILD if k not in ('vict', 'killer', 'awaitv', 'victf', 'awaitf', 'awaitf1')]
+    SPECIAL = ('vspawn1', 'vspawn2', 'bare2', 'bareev', 'bareflag', 'bareinst')
+    singles = [k for k in CHILD if k not in ('vict', 'killer', 'awaitv', 'victf', 'awaitf', 'awaitf1') + SPECIAL]
     pairs_a = ['d1', 'd2', 'f0', 'f1', 'f1b', 'f2', 'priv1', 'nest_fail', 'nest_slow', 'late1', 'waiter', 'finspawn', 'tick',
                'after2', 'at2', 'finraise']
     tri = ['d2', 'f1', 'f1b', 'nest_fail', 'waiter', 'tick'] if thorough else ['d2', 'f1', 'f1b', 'tick']
-    bodies = [b for b in BODIES if b != 'awaitf1']
+    bodies = [b for b in BODIES if b != 'awaitf1' and not b.startswith('inuntil')]
     kinds = list(KINDS)
     def vols(ck):
         return (False, True) if ck in VOLATILE else (False,)
@@ -138,6 +152,26 @@ def cases(tier):
             for kids in (('priv1s', 'f1'), ('f1', 'priv1s'), ('priv1s', 'priv1'), ('priv1', 'priv1s'), ('priv1k', 'f1b'),
                          ('f1', 'nest_priv'), ('nest_priv', 'priv1k'), ('d2', 'priv1s', 'f1b')):
                 out.append(program(kind, [(k, False) for k in kids], body))
+    # a volatile helper spawning a regular child right after the last regular child finished; children with bare awaitable
+    # payloads alive at the end of the block; the owner subscribed twice to the notification of its until block
+    for kind in kinds:
+        for body in ('none', 'd1', 'd2', 'raise1'):
+            for first in ('d1', 'd2', 'f1', 'nest_ok', 'tick'):
+                for sp in ('vspawn1', 'vspawn2'):
+                    out.append(program(kind, [(first, first == 'tick'), (sp, True)], body))
+                    out.append(program(kind, [(sp, True), (first, first == 'tick')], body))
+            for b in ('bare2', 'bareev', 'bareflag', 'bareinst'):
+                for v in ((False, True) if b in ('bare2', 'bareev') else (False,)):
+                    if b == 'bareev' and not v:
+                        continue
+                    out.append(program(kind, [(b, v)], body))
+                    for other in ('d1', 'f1', 'tick', 'd2'):
+                        out.append(program(kind, [(b, v), (other, other == 'tick')], body))
+                        out.append(program(kind, [(other, other == 'tick'), (b, v)], body))
+    for kind in ('untilf', 'scope', 'until2'):
+        for body in ('inuntil', 'inuntil_d2', 'inuntil_raise0'):
+            for kids in ([('tick', True)], [('d1', False)], [('d2', False), ('tick', True)], [('f1', False), ('d2', False)], [('forever', True), ('d1', False)]):
+                out.append(program(kind, kids, body))
     # spawning into the scope from outside, before and after its end
     for kind in ('scope', 'until1'):
         for body in ('none', 'd1', 'raise1'):
